@@ -1,4 +1,6 @@
 """C08 - timers measure elapsed tyme exactly and restart losslessly (E3: all op sequences to a depth)."""
+import math
+
 from .. import treeguard
 from ..enum import Acc
 
@@ -18,6 +20,11 @@ MO_OPS = [("clk", 0.5), ("clk", 2.0), ("clk", -0.5), ("clk", -2.0), ("read", "ex
           ("start", None), ("start", 1.0), ("restart",)]   # read: order in which elapsed / expired / remaining are read
 
 
+# boundary sweep: non-dyadic starts and durations, tyme placed on and one / two ulps around every start and stop
+B_STARTS = [0.0] + [round(0.01 + 0.07 * k, 2) for k in range(60)] + [1.73, 100.1, 123456.789, 1e9 + 0.1]
+B_DURS = [round(0.03 * k, 2) for k in range(1, 120)] + [5.49, 1e-9, 3600.1, 1e6 + 0.3]
+
+
 def depths(tier):
     return (5, 6) if tier == "quick" else (7, 8)
 
@@ -27,8 +34,12 @@ def RULE(tier):
     return ("every sequence of length <= %d over %d Tymer operations (advance/rewind tyme, start(duration?,start?), restart(duration?)) "
             "with a read of elapsed/remaining/expired/duration after every step, compared float-exactly with a start/stop model "
             "written from the statement; every sequence of length <= %d over %d MonoTimer/clock operations (clock +-d, read, start, "
-            "restart) for retro True and False, checking per period that elapsed never decreases and expired never reverts. A case "
-            "is one operation sequence; states = distinct (now,start,stop) triples reached." % (d[0], len(TY_OPS), d[1], len(MO_OPS)))
+            "restart) for retro True and False, checking per period that elapsed never decreases and expired never reverts; plus a "
+            "boundary sweep: %d non-dyadic starts x %d durations x {no restart, restart(), restart(d)} with tyme placed exactly on, "
+            "one and two ulps below and above the stop and the start (12 points), same float-exact model - 'expired exactly when "
+            "now >= stop' is decided at the last representable tyme before the stop. A case "
+            "is one operation sequence; states = distinct (now,start,stop) triples reached." % (d[0], len(TY_OPS), d[1], len(MO_OPS),
+                                                                                                  len(B_STARTS), len(B_DURS)))
 
 
 def EXHAUSTIVE(tier):
@@ -39,7 +50,49 @@ def jobs(tier):
     d = depths(tier)
     js = [("tymer", i, j, d[0]) for i in range(len(TY_OPS)) for j in range(len(TY_OPS))]
     js += [("mono", retro, i, j, d[1]) for retro in (True, False) for i in range(len(MO_OPS)) for j in range(len(MO_OPS))]
+    js += [("tybound", k, 8) for k in range(8)]
     return js
+
+
+def boundary_points(ms, me):
+    na = math.nextafter
+    inf = math.inf
+    pts = [me, na(me, -inf), na(me, inf), na(na(me, -inf), -inf), na(na(me, inf), inf), ms, na(ms, -inf), na(ms, inf),
+           ms + (me - ms) / 2, ms + (me - ms), me - 1e-9, me + 1e-9]
+    out = []
+    for x in pts:
+        if x not in out:
+            out.append(x)
+    return out
+
+
+def run_tybound(case, states=None):
+    """case = [start, duration, restart-duration or -1 (no restart) or -2 (restart(None)), point index]"""
+    st, dur, rd, pi = case
+    now = [0.0]
+    tm = tyming.Tymer(tymth=lambda: now[0], duration=1.0)
+    tm.start(duration=dur, start=st)
+    ms, me = st, st + dur
+    if rd != -1:
+        d = (me - ms) if rd == -2 else rd
+        ms, me = me, me + d
+        tm.restart(duration=None if rd == -2 else rd)
+    pts = boundary_points(ms, me)
+    if pi >= len(pts):
+        return None
+    now[0] = pts[pi]
+    got = (tm.elapsed, tm.remaining, tm.expired, tm.duration)
+    want = (now[0] - ms, me - now[0], now[0] >= me, me - ms)
+    if states is not None:
+        states.add((now[0], ms, me))
+    if got != want:
+        names = ("elapsed", "remaining", "expired", "duration")
+        bad = [names[i] for i in range(4) if got[i] != want[i]]
+        where = "at-stop" if now[0] == me else "below-stop" if now[0] < me else "above-stop"
+        return [("tymer:%s:boundary:%s" % ("+".join(bad), where),
+                 "start(duration=%r, start=%r)%s, tyme=%r (stop=%r): (elapsed,remaining,expired,duration)=%r, model %r" % (
+                     dur, st, "" if rd == -1 else ", restart(%r)" % (None if rd == -2 else rd), now[0], me, got, want))]
+    return []
 
 
 class Clock:
@@ -136,6 +189,28 @@ def run_mono(retro, seq, states=None):
 def run_job(job, tier, seed):
     acc = Acc(job)
     states = set()
+    if job[0] == "tybound":
+        n = 0
+        rds = [-1, -2] + (B_DURS[::17] if tier == "quick" else B_DURS[::5])
+        for si, st in enumerate(B_STARTS):
+            if si % job[2] != job[1]:
+                continue
+            for dur in B_DURS:
+                for rd in rds:
+                    for pi in range(12):
+                        case = [st, dur, rd, pi]
+                        viols = run_tybound(case, states)
+                        if viols is None:
+                            continue
+                        n += 1
+                        if viols or n % 9973 == 1:
+                            acc.case(case, viols[0][0] if viols else "ok", viols or ())
+                        else:
+                            acc.bulk(1, 1)
+        for st in states:
+            acc.state(st)
+        acc.r.obs.add(hash("tybound"))
+        return acc.result()
     if job[0] == "tymer":
         ops, i, j, depth = TY_OPS, job[1], job[2], job[3]
         runner = lambda seq: run_tymer(seq, states)
@@ -173,6 +248,8 @@ def run_job(job, tier, seed):
 
 
 def replay(job, seq):
+    if job[0] == "tybound":
+        return run_tybound(list(seq)) or []
     seq = [tuple(o) for o in seq]
     if job[0] == "tymer":
         return run_tymer(seq)
